@@ -26,6 +26,7 @@ import (
 	"os"
 	"os/exec"
 	"path/filepath"
+	"sort"
 	"strconv"
 	"strings"
 	"sync"
@@ -262,6 +263,19 @@ func num(v any) int {
 	return 0
 }
 
+// stuckChild: an undisturbed child (no kill requested) stopped making progress
+// for over a minute with index calls in flight.
+type stuckChild struct {
+	Workload  string
+	InFlight  []int
+	LastEvent string
+	Events    int
+}
+
+func (s *stuckChild) Error() string {
+	return fmt.Sprintf("undisturbed child of workload %s made no progress for over a minute: batches %v submitted and not returned, %d events, last %s", s.Workload, s.InFlight, s.Events, s.LastEvent)
+}
+
 func execute(c *core.Ctx, rs runSpec) (*runResult, error) {
 	res := &runResult{Spec: rs}
 	work := c.TempDir("crash")
@@ -288,6 +302,29 @@ func execute(c *core.Ctx, rs runSpec) (*runResult, error) {
 	}
 	err := cmd.Wait()
 	if ctx.Err() != nil {
+		// slow or stuck? A child that is merely slow keeps appending events; one whose
+		// event file has not grown for a minute is stuck in a call that does not return.
+		if st, serr := os.Stat(evFile); serr == nil && time.Since(st.ModTime()) > 60*time.Second && rs.CrashAt == 0 && rs.KillAfter == 0 {
+			evs, _ := readEvents(evFile)
+			inflight := map[int]bool{}
+			last := ""
+			for _, ev := range evs {
+				name, _ := ev["ev"].(string)
+				switch name {
+				case "Submit":
+					inflight[num(ev["b"])] = true
+				case "Return", "ReturnErr":
+					delete(inflight, num(ev["b"]))
+				}
+				last = name
+			}
+			var bs []int
+			for b := range inflight {
+				bs = append(bs, b)
+			}
+			sort.Ints(bs)
+			return nil, &stuckChild{Workload: rs.WL.Name, InFlight: bs, LastEvent: last, Events: len(evs)}
+		}
 		return nil, fmt.Errorf("crash child timed out (workload %s crashAt %d)", rs.WL.Name, rs.CrashAt)
 	}
 	if ee, ok := err.(*exec.ExitError); ok {
@@ -447,8 +484,8 @@ func workloads(c *core.Ctx) []sx.Workload {
 	// snapshot still names their (longer) files; the index is opened again and written to
 	out = append(out, sx.Workload{Name: "safe-1w-keep2-emptied-tail-reopen", Writers: 1, Safe: true,
 		KVConfig: map[string]interface{}{"numSnapshotsToKeep": 2, "scorchMergePlanOptions": map[string]interface{}{"FloorSegmentSize": 1}},
-		Batches: []sx.BatchSpec{{W: 1, Puts: []string{"a"}, Dels: []string{}}, {W: 1, Puts: []string{"b", "c", "d"}, Dels: []string{}},
-			{W: 1, Puts: []string{"e", "f", "g", "h"}, Dels: []string{}}, {W: 1, Puts: []string{}, Dels: []string{"b", "c", "d", "e", "f", "g", "h"}}},
+		Batches: []sx.BatchSpec{{W: 1, Puts: []string{"a"}, Dels: []string{}}, {W: 1, Puts: []string{"b"}, Dels: []string{}},
+			{W: 1, Puts: []string{"c", "d"}, Dels: []string{}}, {W: 1, Puts: []string{}, Dels: []string{"b", "c", "d"}}},
 		Tail: []string{"persist", "reopen", "more:1", "persist", "reopen", "more:2", "persist", "close"}})
 	// several in-memory segments per persist round, cut into flush groups of limited size
 	// (ScorchDisk!PMMWrite / PMMCommit: the equivalent snapshot; TraceCrash!EquivIsTheTakenState)
@@ -550,6 +587,16 @@ func run(c *core.Ctx) error {
 	for _, wl := range workloads(c) {
 		// dry run to learn the number of gate hits
 		dry, err := execute(c, runSpec{WL: wl, Variant: "none"})
+		if st, ok := err.(*stuckChild); ok {
+			// "the reopened index accepts further writes": a call on a healthy index that never
+			// comes back is a failure of that clause - if it does so again (reproduce-twice rule)
+			_, err2 := execute(c, runSpec{WL: wl, Variant: "none"})
+			if st2, ok2 := err2.(*stuckChild); ok2 {
+				c.Violation("c03/write-never-returns/"+wl.Name, fmt.Sprintf("%v (twice: %v)", st, st2), map[string]any{"workload": wl})
+				continue
+			}
+			return err
+		}
 		if err != nil {
 			return err
 		}
